@@ -3,6 +3,8 @@
 package parser
 
 import (
+	"strconv"
+
 	"wa-lang.org/wa/internal/wat/ast"
 	"wa-lang.org/wa/internal/wat/token"
 )
@@ -51,6 +53,24 @@ Loop:
 			p.acceptToken(token.EXPORT)
 			fn.ExportName = p.parseStringLit()
 			p.acceptToken(token.RPAREN)
+
+			// 内联导出按出现的顺序登记(可以有多个)
+			funcIdx := fn.Name
+			if funcIdx == "" {
+				// 匿名函数只能通过索引引用
+				n := len(p.module.Funcs)
+				for _, spec := range p.module.Imports {
+					if spec.ObjKind == token.FUNC {
+						n++
+					}
+				}
+				funcIdx = strconv.Itoa(n)
+			}
+			p.module.Exports = append(p.module.Exports, &ast.ExportSpec{
+				Name:    fn.ExportName,
+				Kind:    token.FUNC,
+				FuncIdx: funcIdx,
+			})
 
 		case token.PARAM:
 			p.acceptToken(token.PARAM)
